@@ -485,20 +485,46 @@ static void fam_c02_forceabandon(G& g, Plan& p) {
   else { auto bs = bin_sizes(); size_t b = bs[24 + g.below(20)]; req = (g.padded && b > 8) ? b - 8 : b; per_page = (64 * KiB) / b; }
   int n = big ? 4 + (int)g.below(8) : (int)(per_page * (3 + g.below(12))); if (n > 400) n = 400; if (n < 12 && !big) n = 12;
   p.nslots = n + 40; p.progs.resize((size_t)nt);
-  if (g.chance(big ? 0.6 : 0.3)) set_env(p, "TARGET_SEGMENTS_PER_THREAD", g.pick({1, 2, 3}));
+  const bool has_target = g.chance(big ? 0.6 : 0.45);
+  if (has_target) set_env(p, "TARGET_SEGMENTS_PER_THREAD", g.pick({2, 2, 3, 4}));      // (1 switches the mechanism off)
   if (g.chance(0.3)) set_env(p, "ABANDONED_RECLAIM_ON_FREE", g.pick({0, 1}));
+  if (big && g.chance(0.5)) set_env(p, "ABANDONED_RECLAIM_ON_FREE", 1);       // a freer takes the segment over (and may free it) the moment the owner lets go of it
   if (g.chance(big ? 0.4 : 0.2)) set_env(p, "DISALLOW_ARENA_ALLOC", 1);
   if (g.chance(0.75)) {
-    p.cfg.strategy = ST_TARGETED; p.cfg.hot_p = g.pick({0.3, 0.7}); p.cfg.switch_p = g.pick({0.0, 0.002});
+    p.cfg.strategy = ST_TARGETED; p.cfg.hot_p = g.pick({0.3, 0.7}); p.cfg.switch_p = g.pick({0.0, 0.002}); p.cfg.hold_steps = g.pick<uint64_t>({0, 0, 100, 1000});
     p.cfg.hot_funcs = {"_mi_page_force_abandon", "mi_segment_force_abandon", "_mi_heap_delayed_free_all", "_mi_heap_delayed_free_partial", "mi_free_block_delayed_mt",
                        "_mi_page_use_delayed_free", "_mi_page_try_use_delayed_free", "_mi_free_delayed_block", "mi_free_block_mt"};
   }
   Program& P0 = p.progs[0];
+  if (big && g.chance(0.4)) {
+    // siblings: two pages per segment. One block of each pair is freed by a helper first (the page is full, so the free waits in the owner's
+    // delayed list), then the owner gives segments away (forced abandonment processes that list: the page goes, its sibling is all that is
+    // left and is abandoned with the segment) while another thread frees the siblings - with reclaim-on-free it takes each segment over and
+    // releases it the moment it is abandoned
+    set_env(p, "ABANDONED_RECLAIM_ON_FREE", 1); if (g.chance(0.7)) set_env(p, "DISALLOW_ARENA_ALLOC", 1);
+    if (g.chance(0.8)) { p.cfg.strategy = ST_TARGETED; p.cfg.hot_p = g.pick({0.3, 0.7}); p.cfg.switch_p = 0.0; p.cfg.hold_steps = g.pick<uint64_t>({100, 1000, 5000});
+      p.cfg.hot_funcs = {"_mi_page_force_abandon", "mi_segment_force_abandon", "_mi_heap_delayed_free_all", "_mi_heap_delayed_free_partial", "_mi_free_delayed_block", "mi_segment_abandon"}; }
+    nt = 3; p.progs.resize(3); Program& Q0 = p.progs[0]; n = 2 * (2 + (int)g.below(4)); p.nslots = n + 40;
+    for (int i = 0; i < n; i++) Q0.ops.push_back(mk(OP_malloc, i, req - g.below(16)));
+    for (int i = 0; i < n; i++) if ((i % 2) == (int)g.below(2) || g.chance(0.2)) p.progs[1].ops.push_back(mk(OP_free, i)); else p.progs[2].ops.push_back(mk(OP_free, i));
+    Q0.ops.push_back(mk(OP_spawn, 1)); Q0.ops.push_back(mk(OP_join, 1));
+    Q0.ops.push_back(mk(OP_spawn, 2));
+    // (mi_collect_reduce starts with a forced collect, which empties the delayed list first; the allocation path with a segment target does not)
+    set_env(p, "TARGET_SEGMENTS_PER_THREAD", g.pick({2, 2, 3}));      // (a target of 1 switches the mechanism off)
+    int rounds = 3 + (int)g.below(8);
+    for (int i = 0; i < rounds; i++) { if (g.chance(0.25)) Q0.ops.push_back(mk(OP_collect_reduce, -1, g.pick<uint64_t>({0, 1, 32 * MiB, 64 * MiB}))); else Q0.ops.push_back(mk(OP_malloc, n + (int)g.below(40), req - g.below(16))); }
+    Q0.ops.push_back(mk(OP_join, 2));
+    Q0.ops.push_back(mk(OP_verify_all)); Q0.ops.push_back(mk(OP_census)); Q0.ops.push_back(mk(OP_free_all)); Q0.ops.push_back(mk(OP_giveback_check, -1, 4));
+    return;
+  }
   for (int i = 0; i < n; i++) P0.ops.push_back(mk(OP_malloc, i, req - g.below(16)));
   spawn_all(p, nt, true, g);
   int rounds = 6 + (int)g.below(30);
   for (int i = 0; i < rounds; i++) {
     int k = (int)g.below(10);
+    // with a segment target the give-away happens on the allocation path (a fresh segment is needed while the target is reached), where - unlike
+    // mi_collect_reduce, which collects first - remote frees are still pending in the delayed list
+    if (has_target && g.chance(0.6)) k = g.pick({4, 5, 7, 7, 7, 8});
     if (k < 4) P0.ops.push_back(mk(OP_collect_reduce, -1, g.pick<uint64_t>({0, 1, 32 * MiB, 64 * MiB})));
     else if (k < 7) P0.ops.push_back(mk(OP_malloc, (int)g.below((uint64_t)p.nslots), req - g.below(16)));
     else if (k < 8) P0.ops.push_back(mk(OP_malloc, n + (int)g.below(40), (big ? 9 : 3) * MiB + g.below(8 * MiB)));     // asks for a fresh segment (try_abandon with a target)
@@ -1847,6 +1873,7 @@ static void fam_c14_arena(G& g, Plan& p) {
   const bool giant = g.chance(0.15);
   if (giant) { B = g.pick<size_t>({200, 256, 260, 330}); p.cfg.wall_limit_s = 120; }
   int ngiant[8] = {0, 0, 0, 0, 0, 0, 0, 0};
+  const bool refusals = g.chance(0.3);      // "a request that fails ... leaves nothing reserved": some commits of freshly claimed ranges are refused by the OS
   long delay = g.pick({0, 1, 10, 10, -1});
   set_env(p, "PURGE_DELAY", delay); set_env(p, "ARENA_PURGE_MULT", g.pick({1, 10}));
   int nt = 2 + (int)g.below(3);
@@ -1880,13 +1907,16 @@ static void fam_c14_arena(G& g, Plan& p) {
       else {
         int c = (int)g.below(10); if (B > 64 && g.chance(0.3)) c = 9; size_t sz = c < 4 ? 17 * MiB + g.below(10 * MiB) : c < 6 ? 40 * MiB + g.below(20 * MiB) : 70 * MiB + g.below(130 * MiB);
         if (giant && ngiant[t] < 4 && g.chance(t < 2 ? 0.5 : 0.1)) { sz = (65 + g.below(90)) * 32 * MiB - g.below(16 * MiB); ngiant[t]++; }
-        Op o = mk(OP_malloc, slot, sz); o.hslot = 0; o.flags = OPF_MAY_FAIL | (sz > 512 * MiB ? OPF_NO_FILL : 0); P.ops.push_back(o);
+        Op o = mk(OP_malloc, slot, sz); o.hslot = 0; o.flags = OPF_MAY_FAIL | (sz > 512 * MiB ? OPF_NO_FILL : 0);
+        if (refusals && g.chance(0.2)) { OpFault f; f.kind = OS_MPROTECT_RW; f.nth = 0; f.persistent = g.chance(0.5); o.faults.push_back(f); }    // the commit of the claimed range is refused: the claim is given back
+        P.ops.push_back(o);
       }
     }
   }
   for (int t = 1; t < nt; t++) P0.ops.push_back(mk(OP_join, t));
   P0.ops.push_back(mk(OP_verify_all));
   P0.ops.push_back(mk(OP_free_all));
+  if (refusals) P0.ops.push_back(mk(OP_heal_os));
   P0.ops.push_back(mk(OP_arena_fill_check, 0, g.below(2)));
 }
 
